@@ -128,11 +128,15 @@ Lemma demote_one_RS : forall a st, SInv st ->
              cost x <= ch_bal (p_chain st) a /\ t_gas x <= ch_gaslimit (p_chain st)) /\
   (* the surviving pending list starts at the state nonce *)
   (forall x, in_opt x (p_pending (demote_one a st) a) -> ch_nonce (p_chain st) a <= t_nonce x) /\
-  (forall l, p_pending (demote_one a st) a = Some l -> exists x, In x (l_txs l) /\ t_nonce x = ch_nonce (p_chain st) a).
+  (forall l, p_pending (demote_one a st) a = Some l -> exists x, In x (l_txs l) /\ t_nonce x = ch_nonce (p_chain st) a) /\
+  (* the surviving list is a prefix-by-filter of what Forward leaves: contiguity is inherited *)
+  (forall l0 l' s0, p_pending st a = Some l0 -> p_pending (demote_one a st) a = Some l' ->
+     contig s0 (filter (fun t => negb (t_nonce t <? ch_nonce (p_chain st) a)) (l_txs l0)) -> contig s0 (l_txs l')).
 Proof.
   intros a st HS. unfold demote_one. destruct (p_pending st a) as [l|] eqn:Ep.
   2:{ split; [apply RS_refl, HS|]. split; [reflexivity|]. split; [intros l0 H; rewrite Ep in H; discriminate|].
-      split; [intros x H; rewrite Ep in H; destruct H|]. split; [intros x H; rewrite Ep in H; destruct H | intros l0 H; rewrite Ep in H; discriminate]. }
+      split; [intros x H; rewrite Ep in H; destruct H|]. split; [intros x H; rewrite Ep in H; destruct H|].
+      split; [intros l0 H; rewrite Ep in H; discriminate | intros l0 l' s0 H; discriminate]. }
   pose proof (SL_of_SInv _ HS) as S0. destruct (s_pw _ HS a l Ep) as [Lp Ha].
   set (nonce := ch_nonce (p_chain st) a).
   (* 1. Forward: too old txs leave the list and the lookup *)
@@ -247,6 +251,11 @@ Proof.
       split; [intros x Hx; rewrite Hl4 in Hx; destruct Hx | left; exact Hl4]. }
   destruct H5 as [st5 [lx [L5 [E5 [S5 [HL5 [Ep5 [O5 [C5 [Ch5 [Hlx Hfront]]]]]]]]]]]. rewrite <- E5. rewrite Ep5.
   assert (Hlowx : forall x, In x (l_txs lx) -> nonce <= t_nonce x) by (intros x Hx; apply Hlow1, Hl2_l1, Hlx, Hx).
+  assert (Hl1tx : l_txs l1 = filter (fun t => negb (t_nonce t <? nonce)) (l_txs l)) by (unfold list_forward, sm_forward in E1; inversion E1; reflexivity).
+  assert (Hctg : forall s0, contig s0 (filter (fun t => negb (t_nonce t <? nonce)) (l_txs l)) -> contig s0 (l_txs lx)).
+  { intros s0 Hc0. rewrite <- Hl1tx in Hc0.
+    pose proof (list_filter_strict_contig _ _ _ s0 _ _ _ (lk_strict _ _ _ _ L1) Hc0 E2) as Hc2.
+    destruct Hfront as [Hn|[-> _]]; [rewrite Hn; exact I | exact Hc2]. }
   assert (Hafx : forall x, In x (l_txs lx) -> cost x <= ch_bal (p_chain st) a /\ t_gas x <= ch_gaslimit (p_chain st)) by (intros x Hx; apply Haff2, Hlx, Hx).
   assert (Hother : forall b, b <> a -> p_pending st5 b = p_pending st b).
   { intros b Hb. rewrite (O5 b Hb), Epend, P3, P2, PB, (upd_other _ _ _ _ Hb), P1, PA. apply upd_other, Hb. }
@@ -258,14 +267,15 @@ Proof.
       - intros l0 H0; discriminate.
       - intros x. rewrite (l_empty_true_nil _ Ee). cbn. tauto.
       - intros x []. }
-    split; [|split; [|split; [|split; [|split]]]].
+    split; [|split; [|split; [|split; [|split; [|split]]]]].
     + split; [eapply SInv_of_SL; [exact S6 | exact HL5] | split; [exact C5 | exact Chst5]].
     + intros b Hb. cbn. rewrite (upd_other _ _ _ _ Hb). apply Hother, Hb.
     + intros l0 H0. cbn in H0. rewrite upd_same in H0. discriminate.
     + intros x H0. cbn in H0. rewrite upd_same in H0. destruct H0.
     + intros x H0. cbn in H0. rewrite upd_same in H0. destruct H0.
     + intros l0 H0. cbn in H0. rewrite upd_same in H0. discriminate.
-  - split; [|split; [|split; [|split; [|split]]]].
+    + intros l0 l' s0 _ H0. cbn in H0. rewrite upd_same in H0. discriminate.
+  - split; [|split; [|split; [|split; [|split; [|split]]]]].
     + split; [eapply SInv_of_SL; [exact S5 | exact HL5] | split; [exact C5 | exact Chst5]].
     + exact Hother.
     + intros l0 H0. rewrite Ep5 in H0. inversion H0; subst. intros Hn. unfold l_empty in Ee. rewrite Hn in Ee. discriminate.
@@ -277,6 +287,7 @@ Proof.
       * congruence.
       * unfold l_contains in Hcont. destruct (sm_get nonce (l_txs l2)) as [o|] eqn:Eo; [|discriminate].
         apply sm_get_In in Eo. exists o. exact Eo.
+    + intros l0 l' s0 Hl0 H0 Hc0. inversion Hl0; subst l0. rewrite Ep5 in H0. inversion H0; subst l'. apply Hctg, Hc0.
 Qed.
 
 Definition pne_at (s : pool) (a : N) : Prop := forall l, p_pending s a = Some l -> l_txs l <> [].
